@@ -64,30 +64,44 @@ func hasSyntaxPart(text string) int {
 	return 0
 }
 
-// fileSetProblem checks that every package the configuration calls for is present and non-empty.
+// fileSetProblem checks that every package the configuration calls for is present (a directory with at least one
+// .go file) and that no emitted .go file is empty. File names inside a package are not prescribed.
 func fileSetProblem(dir string, j *c09job) string {
-	want := []string{"token/token.go", "token/context.go", "util/litconv.go", "util/rune.go"}
+	want := []string{"token", "util"}
 	if !j.noLexer() {
-		want = append(want, "lexer/lexer.go", "lexer/transitiontable.go", "lexer/acttab.go")
+		want = append(want, "lexer")
 	}
-	parserFiles := []string{"parser/parser.go", "parser/actiontable.go", "parser/gototable.go", "parser/productionstable.go", "parser/action.go", "parser/context.go", "errors/errors.go"}
 	switch j.HasSyntax {
 	case 1:
-		want = append(want, parserFiles...)
+		want = append(want, "parser", "errors")
 	case -1:
-		if _, err := os.Stat(filepath.Join(dir, "parser")); err == nil {
-			want = append(want, parserFiles...)
-		} else if _, err := os.Stat(filepath.Join(dir, "errors")); err == nil {
-			return "errors package without parser package"
+		_, e1 := os.Stat(filepath.Join(dir, "parser"))
+		_, e2 := os.Stat(filepath.Join(dir, "errors"))
+		if (e1 == nil) != (e2 == nil) {
+			return "only one of the parser and errors packages was written"
+		}
+		if e1 == nil {
+			want = append(want, "parser", "errors")
 		}
 	}
-	for _, f := range want {
-		b, err := os.ReadFile(filepath.Join(dir, f))
+	for _, pkg := range want {
+		ents, err := os.ReadDir(filepath.Join(dir, pkg))
 		if err != nil {
-			return "missing " + f
+			return "package " + pkg + " is missing"
 		}
-		if len(bytes.TrimSpace(b)) == 0 {
-			return f + " is empty"
+		n := 0
+		for _, e := range ents {
+			if !strings.HasSuffix(e.Name(), ".go") {
+				continue
+			}
+			n++
+			b, _ := os.ReadFile(filepath.Join(dir, pkg, e.Name()))
+			if len(bytes.TrimSpace(b)) == 0 {
+				return pkg + "/" + e.Name() + " is empty"
+			}
+		}
+		if n == 0 {
+			return "package " + pkg + " has no Go file"
 		}
 	}
 	if j.noLexer() {
@@ -333,7 +347,7 @@ func init() {
 		}
 		r.Set("cli_cross_checked", sw.pool.CrossChecked.Load())
 		r.Set("watchdog_seconds", gen.Horizon.Seconds())
-		r.Set("rule", "real generator under a watchdog (20 s against a normal 0.03 s; 6 GB) on: every pattern shape of L1; seed grammars x all 64 flag subsets (3 seeds; the 8 file-affecting combinations for the others) x four output forms (-o sub, -o sub/deeper, -o $PWD/sub, -p only); hostile spellings (names, string literals over all ASCII punctuation, character literals, action texts, headers); every token-level mutant and every byte-level mutant of seeds. Every run must terminate; exit 0 => the exact file set the configuration calls for, all non-empty; a deterministic selection of distinct exit-0 outputs whose header/actions are valid Go is compiled with go build; distinct = exit-0 runs with complete output")
+		r.Set("rule", "real generator under a watchdog (20 s against a normal 0.03 s; 6 GB) on: every pattern shape of L1; seed grammars x all 64 flag subsets (3 seeds; the 8 file-affecting combinations for the others) x four output forms (-o sub, -o sub/deeper, -o $PWD/sub, -p only); hostile spellings (names, string literals over all ASCII punctuation, character literals, action texts, headers); every token-level mutant and every byte-level mutant of seeds. Every run must terminate; exit 0 => every package the configuration calls for is present (token, util; lexer unless -no_lexer, which must then be absent; parser and errors iff there is a syntax part), no emitted Go file empty; a deterministic selection of distinct exit-0 outputs whose header/actions are valid Go is compiled with go build; distinct = exit-0 runs with complete output")
 		r.Assumption("non-termination is observed as exceeding the watchdog (600x the normal running time), in-process and again through the real CLI")
 		return r.Finish(nil)
 	}
